@@ -455,6 +455,22 @@ func (h *hHist) createTable() {
 
 func (h *hHist) genPK(t *hTable, label string) ([]string, []string) {
 	var lits, wires []string
+	if len(t.Rows) > 0 && rapid.IntRange(0, 2).Draw(h.rt, h.label(label+".existing")) == 0 {
+		// an existing key (so that updates are frequent)
+		row := t.Rows[rapid.SampledFrom(t.keys()).Draw(h.rt, h.label(label+".key"))]
+		for i, c := range t.Cols {
+			if !c.PK {
+				continue
+			}
+			wires = append(wires, row[i])
+			if c.Kind == hkInt {
+				lits = append(lits, row[i])
+			} else {
+				lits = append(lits, hQuote(row[i]))
+			}
+		}
+		return lits, wires
+	}
 	for _, c := range t.Cols {
 		if !c.PK {
 			continue
@@ -733,6 +749,15 @@ func (h *hHist) indexOp() {
 	var cand []int
 	for i, c := range t.Cols {
 		if c.PK && h.cfg.NoPKIndex {
+			continue
+		}
+		dup := false
+		for _, ic := range t.Idx { // never two indexes over the same column
+			if ic == c.Name {
+				dup = true
+			}
+		}
+		if dup {
 			continue
 		}
 		switch c.Kind {
